@@ -75,7 +75,9 @@ let run (args : (string * string) list) : string =
       else if has "assertion" then 4
       else 0 in
     let model = mi_collect dbg (List.map n_of_int l) (List.map n_of_int bs) in
-    add "m_mi"
+    (* judged on the block lists the compressor can emit (canonical); on the others - which the
+       property does not cover - how the iterator fails, or whether it does, is recorded only *)
+    add (if canonical then "m_mi" else "i_m_mi")
       (match model, status with
        | MOk (len, out), "ok" ->
          okf (List.map int_of_n out = ints_of_string (get args "out") && int_of_n len = get_int args "len")
